@@ -180,7 +180,7 @@ func genValue(r *Rng, d *hdesc) GV {
 			}
 		}
 		if d.kind == 1 && r.Intn(4) == 0 {
-			n = r.Pick(253, 254, 506, 600)
+			n = r.Pick(0, 253, 254, 506, 600)
 		}
 		if d.sizeValid && r.Intn(3) != 0 {
 			n = d.size
@@ -520,6 +520,12 @@ func checkLaws(c *Ctx, r *Rng, h *Helper, d *hdesc) {
 			return
 		}
 	}
+	if d.kind == 1 && len(v.B) == 0 { // F20: Set of an empty value on a concat attribute stores nothing
+		if _, open := c.KnownOpen("F20"); open {
+			c.Count("known-F20", name)
+			return
+		}
+	}
 	before := snapshot(p)
 	other := otherRaw(p, d)
 	if err := h.Set(p, tag, v); err != nil {
@@ -725,6 +731,18 @@ func init() {
 					h.Set(p, 0x20, GV{B: []byte("abc")})
 					tg, _, _ := h.Lookup(p, p)
 					if tg != 0x20 {
+						c.Res.Known = append(c.Res.Known, line)
+					}
+				}
+			}
+		}
+		if line, open := c.KnownOpen("F20"); open {
+			p := &radius.Packet{Secret: []byte("s")}
+			for _, h := range registry {
+				if h.Pkg == "rfc2869" && h.Ident == "EAPMessage" {
+					err := h.Set(p, 0, GV{B: []byte{}})
+					_, _, lerr := h.Lookup(p, p)
+					if err == nil && lerr == radius.ErrNoAttribute {
 						c.Res.Known = append(c.Res.Known, line)
 					}
 				}
